@@ -48,6 +48,13 @@ Definition is_ws (ws ch : Z) : bool := (0 <=? ch) && (ch <? 64) && Z.testbit ws 
 
 Definition is_cont (b : Z) : bool := (0x80 <=? b) && (b <=? 0xBF).
 
+Definition rune2 (b0 b1 : Z) : Z := Z.lor (Z.shiftl (Z.land b0 0x1F) 6) (Z.land b1 0x3F).
+Definition rune3 (b0 b1 b2 : Z) : Z :=
+  Z.lor (Z.lor (Z.shiftl (Z.land b0 0x0F) 12) (Z.shiftl (Z.land b1 0x3F) 6)) (Z.land b2 0x3F).
+Definition rune4 (b0 b1 b2 b3 : Z) : Z :=
+  Z.lor (Z.lor (Z.lor (Z.shiftl (Z.land b0 0x07) 18) (Z.shiftl (Z.land b1 0x3F) 12))
+               (Z.shiftl (Z.land b2 0x3F) 6)) (Z.land b3 0x3F).
+
 (** utf8.DecodeRune: (rune, width); (RuneError, 1) for an invalid or incomplete encoding,
     (RuneError, 0) for the empty input *)
 Definition utf8_decode (bs : bytes) : Z * Z :=
@@ -59,7 +66,7 @@ Definition utf8_decode (bs : bytes) : Z * Z :=
     else if b0 <? 0xE0 then
       match t with
       | b1 :: _ =>
-        if is_cont b1 then (Z.lor (Z.shiftl (Z.land b0 0x1F) 6) (Z.land b1 0x3F), 2) else (rune_error, 1)
+        if is_cont b1 then (rune2 b0 b1, 2) else (rune_error, 1)
       | _ => (rune_error, 1)
       end
     else if b0 <? 0xF0 then
@@ -68,7 +75,7 @@ Definition utf8_decode (bs : bytes) : Z * Z :=
         let lo := if b0 =? 0xE0 then 0xA0 else 0x80 in
         let hi := if b0 =? 0xED then 0x9F else 0xBF in
         if (lo <=? b1) && (b1 <=? hi) && is_cont b2
-        then (Z.lor (Z.lor (Z.shiftl (Z.land b0 0x0F) 12) (Z.shiftl (Z.land b1 0x3F) 6)) (Z.land b2 0x3F), 3)
+        then (rune3 b0 b1 b2, 3)
         else (rune_error, 1)
       | _ => (rune_error, 1)
       end
@@ -78,8 +85,7 @@ Definition utf8_decode (bs : bytes) : Z * Z :=
         let lo := if b0 =? 0xF0 then 0x90 else 0x80 in
         let hi := if b0 =? 0xF4 then 0x8F else 0xBF in
         if (lo <=? b1) && (b1 <=? hi) && is_cont b2 && is_cont b3
-        then (Z.lor (Z.lor (Z.lor (Z.shiftl (Z.land b0 0x07) 18) (Z.shiftl (Z.land b1 0x3F) 12))
-                           (Z.shiftl (Z.land b2 0x3F) 6)) (Z.land b3 0x3F), 4)
+        then (rune4 b0 b1 b2 b3, 4)
         else (rune_error, 1)
       | _ => (rune_error, 1)
       end
